@@ -271,6 +271,52 @@ func c02Cell(k *core.Case, ci int, exhaustive bool) {
 		}
 		e.judge(pp, "extension", "tail")
 	}
+	// insertions and deletions (the octets of the genuine message all survive, shifted): transport framings a
+	// receiver might be tempted to strip - RFC 3948 Non-ESP marker, RFC 8229 length prefix / stream prefix, a
+	// NAT-keepalive octet - plus arbitrary inserted / removed runs, with and without repaired length fields
+	fixLens := func(pp []byte, at int) {
+		if len(pp) >= at+28 {
+			n := len(pp) - at
+			pp[at+24], pp[at+25], pp[at+26], pp[at+27] = byte(n>>24), byte(n>>16), byte(n>>8), byte(n)
+		}
+	}
+	ins := func(off int, what []byte) []byte {
+		pp := append([]byte{}, p[:off]...)
+		pp = append(pp, what...)
+		return append(pp, p[off:]...)
+	}
+	for _, fr := range [][]byte{{0, 0, 0, 0}, {0, 0, 0, 0, 0, 0, 0, 0}, {byte((len(p) + 6) >> 8), byte(len(p) + 6), 0, 0, 0, 0}, {byte((len(p) + 2) >> 8), byte(len(p) + 2)},
+		[]byte("IKETCP"), {0xff}, {0}, make([]byte, 28), append([]byte{}, p[:4]...), append([]byte{}, p[:28]...)} {
+		e.judge(ins(0, fr), "insertion", "front")
+		pp := ins(0, fr)
+		fixLens(pp, 0)
+		e.judge(pp, "insertion", "front")
+		if len(fr) <= 8 {
+			e.judge(ins(len(p), fr), "insertion", "tail")
+		}
+	}
+	k.Count("transport_framings_tried", 1)
+	for i := 0; i < 16; i++ {
+		off := k.R.Intn(len(p) + 1)
+		run := k.R.Bytes(k.R.Pick(1, 2, 4, 8, 16))
+		if i%4 == 0 {
+			run = make([]byte, len(run))
+		}
+		pp := ins(off, run)
+		if i%2 == 0 {
+			fixLens(pp, 0)
+		}
+		e.judge(pp, "insertion", posClass(minI(off, len(p)-1), len(p), icv))
+		// deletion of a run
+		n := k.R.Pick(1, 2, 4, 8, 16)
+		if off+n <= len(p) {
+			pp = append(append([]byte{}, p[:off]...), p[off+n:]...)
+			if i%2 == 0 {
+				fixLens(pp, 0)
+			}
+			e.judge(pp, "deletion", posClass(off, len(p), icv))
+		}
+	}
 	// random multi-octet edits
 	for i := 0; i < 48; i++ {
 		pp := append([]byte{}, p...)
@@ -390,7 +436,7 @@ func c02(c *core.Ctx) {
 	c.Info("assumptions", "acceptance with HMAC-collision probability (<= 2^-96) is treated as never || spies wrap the exported interface-typed fields Encr_i/Encr_r/Integ_i/Integ_r")
 	c.Family("cells-exhaustive", c.N(36*6, 36*2000), func(k *core.Case) { c02Cell(k, k.Index%36, true) })
 	c.Family("cells-sampled", c.N(36*12, 36*6000), func(k *core.Case) { c02Cell(k, k.Index%36, false) })
-	req := []string{"genuine_accepted", "exhaustive_bitflip_messages", "rejected_cross-key", "rejected_reflection", "handled_as_unprotected", "rejected_short-sk-body"}
+	req := []string{"transport_framings_tried", "rejected_insertion", "genuine_accepted", "exhaustive_bitflip_messages", "rejected_cross-key", "rejected_reflection", "handled_as_unprotected", "rejected_short-sk-body"}
 	for _, pc := range allPosClasses {
 		req = append(req, "pos_"+pc)
 	}
